@@ -38,7 +38,7 @@ KIND_DIST = {"loop": 0.5, "full": 1.0, "short": 0.25}
 
 
 # Finding met on the unchanged tree.  known_findings.json is maintained by the lead; until the id is listed
-# there the entry below is used, and said so in the assumptions.
+# there a hit of the deviation is a VIOLATION; the list below is documentation only.
 PROPOSED = [
     {"id": "F-LOOP-1", "property": "X02", "status": "known", "match": {"deviation": "InvalidThresholdAccepted"},
      "what": "SimParams::SimParams(Input) accepts looping thresholds for which LoopingThreshold::operator bool is false "
@@ -224,10 +224,7 @@ def _harness(ctx, name, runs):
 def run(ctx):
     vlib.build(["vlooping"])
     q = ctx.quick
-    for p in PROPOSED:
-        if not any(f["id"] == p["id"] for f in ctx.findings):
-            ctx.findings.append(p)
-            ctx.assumptions.append("finding %s is proposed by this check and not yet listed in known_findings.json" % p["id"])
+    # known findings come from the committed known_findings.json only (PROPOSED documents what was asked for)
     t0 = time.time()
     main, scripts, refuted = _design(ctx)
     vlib.log("X02 design check: %d states, %d transitions, %d scripts, mutants %s, %.0fs"
